@@ -163,9 +163,11 @@ def timestamps_recorder(orig, a, k):
             d = a[0] if a else k.get("dttm")
             if isinstance(d, dt.datetime) and isinstance(out, str):
                 off = d.utcoffset()
-                offm = 0 if off is None else int(off.total_seconds() // 60)
-                if off is not None and off.total_seconds() % 60:
-                    return out          # offsets with seconds: outside the model
+                tot = 0 if off is None else int(off.total_seconds())
+                offm = int(tot / 60)              # minutes and seconds parts with the sign of the whole
+                offs = tot - offm * 60
+                if off is not None and off.microseconds:
+                    return out          # offsets with fractions of a second: outside the model
                 prec = getattr(d, "precision", U.Precision.ANY)
                 con = getattr(d, "precision_constraint", U.PrecisionConstraint.EXACT)
                 pn, cn = prec.name.lower(), con.name.lower()
@@ -179,7 +181,7 @@ def timestamps_recorder(orig, a, k):
                 except Exception:  # noqa
                     out2, ok2 = "", False
                 emit("timestamps", "format_datetime", {
-                    "form": "dt", "first": [], "c": {"y": d.year, "mo": d.month, "d": d.day, "h": d.hour, "mi": d.minute, "s": d.second, "us": d.microsecond, "off": offm},
+                    "form": "dt", "first": [], "c": {"y": d.year, "mo": d.month, "d": d.day, "h": d.hour, "mi": d.minute, "s": d.second, "us": d.microsecond, "off": offm, "offs": offs},
                     "naive": off is None, "src": [], "prec": pn, "con": cn, "ok": True, "exc": "none", "out": [ord(ch) for ch in out], "ok2": ok2,
                     "out2": [ord(ch) for ch in out2], "hasb": False, "cb": {}, "outb": []})
     except Exception:  # noqa
